@@ -252,7 +252,7 @@ def _check_adder(ck: Checker, m: TransferModel, rule: str) -> None:
                             a_n, a_v = get_arg(alt, None, "name", 0), get_arg(alt, None, "value", 1)
                             if a_n is not None and a_v is not None and isinstance(a_v, ast.Name) and cb.has_param(a_v.id):
                                 nn = norm(a_n)
-                                okid = okid or (nn.endswith(".hash_name") and nn.split(".")[0] != dparam and adder.has_param(nn.split(".")[0]))
+                                okid = okid or (nn.endswith(".hash_name") and dparam not in names(a_n))
                         if isinstance(alt, ast.Subscript) and isinstance(alt.slice, ast.Name) and cb.has_param(alt.slice.id) and isinstance(alt.value, ast.Name):
                             okid = True  # looked up in a table of the requested ids
                     ck.require(okid, rule, cb, n, "a failure is recorded under the requested identity HashInfo(source.hash_name, oid)",
